@@ -311,6 +311,50 @@ func refMulticodeEncode(g *EG) []byte {
 	return out
 }
 
+// refMulticodeParse reads one Multicode record by the format's rules: the number of vertices n, then for each of
+// the vertices 1..n-1 the list of its larger neighbours (numbered from 1, in any order, none twice) closed by a 0.
+func refMulticodeParse(b []byte) (*EG, string) {
+	if len(b) == 0 {
+		return nil, "empty"
+	}
+	n := int(b[0])
+	g := &EG{N: n}
+	seen := map[[2]int]bool{}
+	if n <= 1 {
+		// formats in the wild write a lone size byte for n<=1; the library writes exactly that
+		if len(b) != 1 {
+			return nil, fmt.Sprintf("%d bytes after the size byte of a graph with %d vertices", len(b)-1, n)
+		}
+		return g, ""
+	}
+	pos := 1
+	for v := 1; v <= n-1; v++ {
+		for {
+			if pos >= len(b) {
+				return nil, fmt.Sprintf("record ends inside the list of vertex %d", v)
+			}
+			x := int(b[pos])
+			pos++
+			if x == 0 {
+				break
+			}
+			if x <= v || x > n {
+				return nil, fmt.Sprintf("entry %d in the list of vertex %d is not a larger vertex <= %d", x, v, n)
+			}
+			if seen[[2]int{v - 1, x - 1}] {
+				return nil, fmt.Sprintf("edge %d-%d listed twice", v, x)
+			}
+			seen[[2]int{v - 1, x - 1}] = true
+			g.Edges = append(g.Edges, [2]int{v - 1, x - 1})
+		}
+	}
+	if pos != len(b) {
+		return nil, fmt.Sprintf("%d bytes after the last list", len(b)-pos)
+	}
+	g.norm()
+	return g, ""
+}
+
 // ---- Pruefer ----
 
 func refPruferEncode(g *EG) []int {
